@@ -627,7 +627,7 @@ def apply(model: RefDir, act, info=None):
 
 def symbols_mentioned(act):
     out = []
-    for k in ('sym', 'ref_sym', 'code'):
+    for k in ('sym', 'ref_sym', 'code', 'names_symbol'):
         if act.get(k):
             out.append(act[k])
     return out
